@@ -1,5 +1,5 @@
 PROP = {
-    "groups": ["proc", "e2e-hang"],
+    "groups": ["proc", "errtell", "e2e-hang"],
     "rule": "proc: for each of the three generated nets (send, recv, hash) the numbers of goroutines, channels, "
             "defer-closed channels, range loops and the sorted channel capacities counted by an independent name-based "
             "go/ast walk vs the numbers the extracted model computes from the generated skeleton; plus the real sender "
